@@ -21,7 +21,8 @@ def run(chk, tier):
         spec_codec.check(chk, lib, ("get", "get_value"))
         if std == "c++20":
             spec_codec.check_constexpr(chk, lib)
-    e4.check(chk, ("accessors",), tier)
+    # cursor getters decode too: width, byte order and offsets of the cursor primitive each generated accessor forwards to
+    e4.check(chk, ("accessors", "cursor"), tier)
     chk.floor("CODEC.get instantiations", chk.rule_counts.get("CODEC.get", 0), 60)
     return chk.finish(
         explanation=("get_primitive<T,E> for every primitive/enum/set underlying type, both byte orders and both build paths "
